@@ -7,7 +7,11 @@ import ast
 import z3
 
 from .values import (SArr, SBag, SFunc, SObj, SSeq, SSlice, SStr, Unsupported, coerce2, concrete,
-                     is_bool, is_intlike, is_num, is_reallike, is_z3, num_term, to_bool, to_z3)
+                     is_bool, is_intlike, is_num, is_reallike, is_z3, num_term, snap, snap_finite,
+                     to_bool, to_z3)
+
+import itertools as _it
+_bv = _it.count()
 
 # uninterpreted real functions; axioms are instantiated per application
 _UF = {}
@@ -25,8 +29,10 @@ def real(x):
 
 
 def _lift1(ex, f, v, kind='real'):
+    if isinstance(v, SBag):
+        return SBag(v.shape, v.pred, lambda p, g=v.val: f(g(p)), kind)
     if isinstance(v, SArr):
-        return SArr(v.shape, lambda idx, g=v.fn: f(g(idx)), kind)
+        return SArr(v.shape, lambda idx, g=snap(v): f(g(idx)), kind)
     if isinstance(v, SSeq):
         return SSeq(v.length, lambda i, g=v.fn: f(g(i)), kind)
     return f(v)
@@ -325,10 +331,10 @@ def p_hypot(ex, args, kw, st):
 
 
 def p_isfinite(ex, args, kw, st):
-    # In Real mode every value is finite unless the array carries a 'finite' predicate.
+    # In Real mode every value is finite unless the array carries a finiteness predicate.
     v = args[0]
     if isinstance(v, SArr):
-        pred = getattr(v, 'finite', None)
+        pred = snap_finite(v)
         if pred is None:
             return SArr(v.shape, lambda idx: True, 'bool')
         return SArr(v.shape, pred, 'bool')
@@ -338,10 +344,11 @@ def p_isfinite(ex, args, kw, st):
 def p_isnan(ex, args, kw, st):
     v = args[0]
     if isinstance(v, SArr):
-        pred = getattr(v, 'isnan', None)
+        pred = snap_finite(v)
         if pred is None:
             return SArr(v.shape, lambda idx: False, 'bool')
-        return SArr(v.shape, pred, 'bool')
+        # non-finite input elements are NaN or +-inf: isnan is its own predicate, implied finite
+        return SArr(v.shape, lambda idx: z3.Not(to_bool(pred(idx))), 'bool')
     return False
 
 
@@ -394,8 +401,10 @@ def np_where(ex, args, kw, st):
         raise Unsupported('np.where with one argument')
     c, a, b = args
 
+    fs = {id(v): snap(v) for v in (c, a, b) if isinstance(v, SArr)}
+
     def pick(v, idx):
-        return v.fn(idx) if isinstance(v, SArr) else v
+        return fs[id(v)](idx) if isinstance(v, SArr) else v
     shape = next(v.shape for v in (c, a, b) if isinstance(v, SArr))
     kind = 'real'
     ks = [v.kind if isinstance(v, SArr) else ('bool' if is_bool(v) else
@@ -411,18 +420,8 @@ def np_identity(ex, args, kw, st):
 def np_copy(ex, args, kw, st):
     v = args[0]
     if isinstance(v, SArr):
-        f = v.fn
-        snap = {}
-        # value snapshot: element function captured now (store may change later)
-        if v.store is not None:
-            sfn, off = v.store.fn, v.off or tuple(0 for _ in v.shape)
-
-            def f(idx, sfn=sfn, off=off):
-                return sfn(tuple(num_term(i) + o for i, o in zip(idx, off)))
-        out = ex.new_array(v.shape, f, v.kind, 'copy')
-        for a in ('finite', 'isnan'):
-            if hasattr(v, a):
-                setattr(out, a, getattr(v, a))
+        out = ex.new_array(v.shape, snap(v), v.kind, 'copy')
+        out.store.finite = snap_finite(v)
         return out
     if isinstance(v, SSeq):
         return SSeq(v.length, v.fn, v.kind)
@@ -434,7 +433,7 @@ def np_copy(ex, args, kw, st):
 def np_count_nonzero(ex, args, kw, st):
     v = args[0]
     if isinstance(v, SArr):
-        return ('COUNT', v.shape, v.fn)
+        return ('COUNT', v.shape, snap(v))
     raise Unsupported('count_nonzero')
 
 
@@ -464,7 +463,7 @@ def agg_any(ex, v, st):
     if isinstance(v, SSeq):
         shape, fn = (v.length,), (lambda idx: v.fn(idx[0]))
     else:
-        shape, fn = v.shape, v.fn
+        shape, fn = v.shape, snap(v)
     wit = tuple(fresh('w', 'int') for _ in shape)
     # b  =>  witness in box with v true
     st.fact(z3.Implies(b, z3.And(_in_box(wit, shape), to_bool(fn(wit)))))
@@ -479,14 +478,14 @@ def agg_all(ex, v, st):
     if isinstance(v, SSeq):
         nv = SSeq(v.length, lambda i: z3.Not(to_bool(v.fn(i))), 'bool')
     else:
-        nv = SArr(v.shape, lambda idx: z3.Not(to_bool(v.fn(idx))), 'bool')
+        nv = SArr(v.shape, lambda idx, f=snap(v): z3.Not(to_bool(f(idx))), 'bool')
     return z3.Not(agg_any(ex, nv, st))
 
 
 def np_diff(ex, args, kw, st):
     v = args[0]
     if isinstance(v, SArr) and v.ndim == 1:
-        v = SSeq(v.shape[0], lambda i, f=v.fn: f((i,)), v.kind)
+        v = SSeq(v.shape[0], lambda i, f=snap(v): f((i,)), v.kind)
     if not isinstance(v, SSeq):
         raise Unsupported('np.diff')
     n = num_term(v.length)
@@ -556,12 +555,29 @@ def np_transpose(ex, args, kw, st):
         return SArr((a.length, 2), lambda idx: ex.ite(num_term(idx[1]) == 0, a.fn(idx[0]),
                                                       b.fn(idx[0])), a.kind)
     if isinstance(v, SArr) and v.ndim == 2:
-        return SArr((v.shape[1], v.shape[0]), lambda idx, f=v.fn: f((idx[1], idx[0])), v.kind)
+        return SArr((v.shape[1], v.shape[0]), lambda idx, f=snap(v): f((idx[1], idx[0])), v.kind)
     raise Unsupported('np.transpose')
 
 
 def p_warn(ex, args, kw, st):
     return None
+
+
+def p_interp(name):
+    """External interpolator constructors: an opaque callable record holding its arguments
+    (assumed contract: PCHIP interpolates its knots; nothing else is used)."""
+    def g(ex, args, kw, st):
+        return SObj('callable:' + name, {'x': args[0], 'y': args[1], **kw})
+    return g
+
+
+def np_ndim(ex, args, kw, st):
+    v = args[0]
+    if isinstance(v, SArr):
+        return v.ndim
+    if isinstance(v, SSeq):
+        return 1
+    return 0
 
 
 def p_sum(ex, args, kw, st):
@@ -612,10 +628,9 @@ def cl_forall(ex, args, kw, st):
     import inspect
     n = len(ranges) if ranges else 1
     names = getattr(fn, 'argnames', None)
-    if ex.goal_mode:
-        vs = [fresh('sk', 'int') for _ in range(n)]
-    else:
-        vs = [z3.Int(f'bv!{id(fn)}!{k}') for k in range(n)]
+    # a real quantifier in every position: z3 skolemises per polarity itself (a manual skolem
+    # constant would be unsound under negation, e.g. inside iff(...))
+    vs = [z3.Int(f'bv!{next(_bv)}') for k in range(n)]
     guard = []
     for v, r in zip(vs, ranges):
         if r is None:
@@ -627,9 +642,17 @@ def cl_forall(ex, args, kw, st):
             guard.append(v < num_term(hi))
     body = to_bool(fn.fn(*vs))
     f = z3.Implies(z3.And(*guard), body) if guard else body
-    if ex.goal_mode:
-        return f
     return z3.ForAll(vs, f)
+
+
+def cl_isfinite_at(ex, args, kw, st):
+    """isfinite_at(arr, i, j): the per-element finiteness predicate of a symbolic input array."""
+    a = args[0]
+    idx = tuple(args[1:])
+    pred = snap_finite(a)
+    if pred is None:
+        return True
+    return pred(idx)
 
 
 def cl_is_none(ex, args, kw, st):
@@ -681,10 +704,12 @@ TABLE = {
     'np.array': np_array, 'np.atleast_1d': np_atleast_1d, 'np.transpose': np_transpose,
     'np.count_nonzero': np_count_nonzero, 'np.any': np_any, 'np.all': np_all,
     'np.diff': np_diff, 'np.argmax': np_argmax_first_true,
+    'PchipInterpolator': p_interp('PchipInterpolator'), 'np.ndim': np_ndim,
+    'np.float32': np_identity, 'np.float64': np_identity,
     'warnings.warn': p_warn, 'warnings.simplefilter': p_warn, 'warnings.filterwarnings': p_warn,
     # contract language
     'implies': cl_implies, 'iff': cl_iff, 'forall': cl_forall, 'is_none': cl_is_none,
-    'is_int': cl_is_int, 'ite': cl_ite, 'sq': cl_sq,
+    'is_int': cl_is_int, 'ite': cl_ite, 'sq': cl_sq, 'isfinite_at': cl_isfinite_at,
 }
 for _e in ('ValueError', 'TypeError', 'IndexError', 'KeyError', 'NotImplementedError',
            'RuntimeError', 'AstropyUserWarning', 'NoDetectionsWarning'):
@@ -740,11 +765,11 @@ def arr_method(ex, v, meth, args, kw, st):
         kind = {'bool': 'bool', 'int': 'int', 'float': 'real'}.get(kind, 'real')
         if isinstance(v, SArr):
             if kind == 'real':
-                return SArr(v.shape, lambda idx, f=v.fn: real(f(idx)), 'real')
+                return SArr(v.shape, lambda idx, f=snap(v): real(f(idx)), 'real')
             if kind == 'bool':
-                return SArr(v.shape, lambda idx, f=v.fn: to_bool(f(idx)), 'bool')
+                return SArr(v.shape, lambda idx, f=snap(v): to_bool(f(idx)), 'bool')
         raise Unsupported('astype')
     if meth == 'sum':
         if isinstance(v, SArr):
-            return ('SUM', v.shape, v.fn)
+            return ('SUM', v.shape, snap(v))
     raise Unsupported(f'array method {meth}')
